@@ -26,7 +26,9 @@ FamLen  == UNION { { A(n) \o <<AT>> \o xcom,
                      <<DQ>> \o A(n - 2) \o <<DQ, AT>> \o xcom,
                      JoinWith([i \in 1..(n \div 2) |-> <<97>>], DOT) \o <<AT>> \o xcom,
                      A(n) \o <<AT, LBR, 49, DOT, 50, DOT, 51, DOT, 52, RBR>>,
-                     A(n - 2) \o <<195, 169, AT>> \o xcom } : n \in 58..70 }
+                     A(n - 2) \o <<195, 169, AT>> \o xcom,
+                     <<DQ, 97, AT>> \o A(n - 4) \o <<DQ, AT>> \o xcom,           \* an '@' inside a quoted local part of n octets
+                     <<DQ, AT>> \o A(n - 3) \o <<DQ, AT, LBR, 49, DOT, 50, DOT, 51, DOT, 52, RBR>> } : n \in 58..70 }
 Family == FamPool \cup FamLen
 
 Bucket(x) == IF Len(x) = 0 THEN 0 ELSE (Len(x) * 7 + x[Len(x)] + x[(Len(x) + 1) \div 2]) % 64
